@@ -7,7 +7,7 @@
      result_of         Ok(false) / Ok(true)+buf / Err(RoundTrip) -> Unchanged / Changed b / Die; None = panic or hang
      pipe_result       the bytes read back from the pipeline, or which round-trip error; None = panic or hang *)
 From GixV.Base Require Import Bytes BytesFacts Outcome.
-From GixV.C43 Require Import Model Spec ProofsEol ProofsWt ProofsPipe.
+From GixV.C43 Require Import Model Spec ProofsEol ProofsWt ProofsPipe ProofsIdent ProofsCount.
 Local Open Scope N_scope.
 
 (* the statistics gathered over any byte string are git's gather_stats, including the trailing ^Z rule *)
@@ -58,12 +58,17 @@ Theorem to_git_is_git_without_ident : forall src a c rt idx,
   pipe_result (pipeline_to_git src a c rt idx) = Some (convert_to_git (cfg_to_git c) a (rt_to_flags rt) idx src).
 Proof. exact to_git_is_git_no_ident. Qed.
 
-(* the full statement; its only unproved ingredient is "ident::undo = ident_to_git" (tested, not proved) *)
-Definition to_git_is_git_full_statement : Prop := forall src a c rt idx,
+(* ident::undo: for every byte string the buffers hold what git's ident_to_git produces (count_ident
+   pre-check + the dollar-by-dollar loop); in particular find_range's offsets are always in range *)
+Theorem ident_undo_is_git : forall s, undo_stage s = Some (inl (ident_to_git s true)).
+Proof. exact ProofsCount.ident_undo_is_git. Qed.
+
+(* to_git_is_git, the FULL statement: for every content, attribute assignment (ident included), core.autocrlf,
+   core.eol, core.safecrlf mode and index blob, the pipeline yields the bytes `git hash-object --path` / `git add`
+   stores, or fails with git's round-trip error; it never panics or hangs *)
+Theorem to_git_is_git : forall src a c rt idx,
   pipe_result (pipeline_to_git src a c rt idx) = Some (convert_to_git (cfg_to_git c) a (rt_to_flags rt) idx src).
-Theorem to_git_is_git_partial :
-  (forall s, undo_stage s = Some (inl (ident_to_git s true))) -> to_git_is_git_full_statement.
-Proof. exact to_git_is_git_given_undo. Qed.
+Proof. exact to_git_is_git_all. Qed.
 
 (* to_worktree_is_git: FALSE of the code when the ident filter expands something (two known classes:
    `$Id: <hex>$` instead of `$Id: <hex> $`, expanded ids left alone) ... *)
@@ -109,6 +114,14 @@ Example except_known_example :
   let src := bs "$Id" ++ [x0a] ++ bs "x" in
   known_towt a src = false /\ pipeline_to_worktree [] src a c = Ok (bs "$Id" ++ [x0d; x0a] ++ bs "x").
 Proof. vm_compute. split; reflexivity. Qed.
+
+(* an input on which ident and eol conversion both act, with core.safecrlf=true, to-git *)
+Example to_git_example :
+  let a := {| a_crlf := Unspecified; a_ident := ASet; a_eol := Unspecified; a_text := AValue (bs "auto") |} in
+  let c := {| auto_crlf := AcInput; cfg_eol := None |} in
+  pipeline_to_git (bs "$Id: 0123 $" ++ [x0d; x0a] ++ bs "$Id: x" ++ [x0d; x0a] ++ bs "$") a c (Some RtWarn) None
+  = Ok (bs "$Id$" ++ [x0a] ++ bs "$Id: x" ++ [x0a] ++ bs "$").
+Proof. vm_compute. reflexivity. Qed.
 
 Example undo_example :
   ident_undo (bs "a $Id: 0123 $ b $Id:" ++ [x0a] ++ bs "$") = Ok (Some (bs "a $Id$ b $Id:" ++ [x0a] ++ bs "$")).
